@@ -272,7 +272,7 @@ Dim(d) == CASE d \in {"none", "default"} -> <<24, 80>>     \* dimensions=None: t
             [] d = "small" -> <<7, 31>>
             [] d = "unit"  -> <<1, 1>>
 ConfigRows ==
-  { r \in [transport : {"pty", "popen"}, cwd : {"none", "tmp"}, env : {"none", "with_path", "without_path"},
+  { r \in [transport : {"pty", "popen"}, cwd : {"none", "tmp"}, env : {"none", "with_path", "without_path", "empty"},
            dims : DimOpts, echo : BOOLEAN, ignore_sighup : BOOLEAN, preexec : BOOLEAN] :
       \* PopenSpawn has no terminal and no ignore_sighup argument
       r.transport = "popen" => (r.dims = "none" /\ r.echo /\ ~r.ignore_sighup) }
